@@ -41,8 +41,8 @@ func init() {
 		c.Assumptions = append(c.Assumptions,
 			"JSON back end: histories of up to 3 (thorough 4) operations from {AddSignature, AddSignatures of 1-2}, IDs from a pool of two, other fields symbolic (strings <= 2 bytes, doubles and ints unconstrained); crypto/rand returns distinct fresh bytes",
 			"SaveDatabase runs against a small file-system model (named cells; CreateTemp yields a fresh name; every call may fail once according to a symbolic fault script; a second overlapping save runs as a block before any one call); it cannot be realised natively and is confirmed by concrete re-execution of the SSA",
-			"Pebble back end: histories of up to 2 (thorough 3) operations over the Pebble contract model (pool signatures, IDs from a pool of two)",
-			"migration: the JSON file is a token list {[version:v] [signatures:[sig|bad ...]] [generated_at:v]} with up to 2 (thorough 3) elements, truncated at a solver-chosen token boundary or inside a solver-chosen token; json.Decoder is replaced by a token-level model (engine/jsonstream.go) whose answers were validated against the real decoder by native replay of one witness per truncation shape (selftest); export: the value handed to json.MarshalIndent is compared with the stored set",
+			"Pebble back end: histories of up to 2 operations over the Pebble contract model (3 did not finish within the 40-minute cap of the whole check) (pool signatures, IDs from a pool of two)",
+			"migration: the JSON file is a token list {[version:v] [signatures:[sig|bad ...]] [generated_at:v]} with up to 2 elements, truncated at a solver-chosen token boundary or inside a solver-chosen token; json.Decoder is replaced by a token-level model (engine/jsonstream.go) whose answers were validated against the real decoder by native replay of one witness per truncation shape (selftest); export: the value handed to json.MarshalIndent is compared with the stored set",
 			"the 1000-entry batch flush, files that are valid JSON of another schema, unicode content and JSON escaping are outside this bound")
 		pk := []string{"pkg/storage/jsondb"}
 		if len(cfgs) > 2 {
